@@ -725,7 +725,9 @@ class Every(Query):
         if fieldname in (None, "", "*"):
             # This takes into account deletions
             doclist = array("I", reader.all_doc_ids())
-        elif fieldname not in searcher.schema:
+        elif (fieldname not in searcher.schema
+              or searcher.schema[fieldname].format is None):
+            # No such field, or the field is not indexed
             return matching.NullMatcher()
         else:
             # This is a hacky hack, but just create an in-memory set of all the
